@@ -25,6 +25,8 @@ func init() {
 		Assumptions: []string{"failure of a sub-match that is returned unchanged to the caller is handled by the caller's frame (checked at the caller)"},
 		Run:         runC09,
 		Mutants: []Mutant{
+			{Name: "bound-decided-by-nil-test", File: "pattern/match.go", Rule: "R9.6", KeyPart: "Binding).Match::State-presence-by-comma-ok",
+				Old: "\t\tv, ok := m.State[b.Name]\n\t\tif ok {\n", New: "\t\tv := m.State[b.Name]\n\t\tif v != nil {\n"},
 			{Name: "or-no-pop", File: "pattern/match.go", Rule: "R9.1", KeyPart: "Or).Match",
 				Old: "\t\t} else {\n\t\t\tm.pop()\n\t\t}\n", New: "\t\t} else {\n\t\t\tm.merge()\n\t\t}\n"},
 			{Name: "not-no-frame", File: "pattern/match.go", Rule: "R9.1", KeyPart: "Not).Match",
@@ -409,6 +411,59 @@ func runC09(c *Ctx) {
 			}
 		}
 		c.Check(FuncKey(bm)+"::recall-matches-stored-subtree", bm.Pos(), recall, "a name that is already bound is matched against the stored subtree State[b.Name]")
+	})
+	// R9.6: "is this name bound?" is decided by presence in State, never by the
+	// stored value: a name legitimately binds the untyped nil when the matched
+	// child is absent (no else branch, no init statement), so a lookup whose
+	// result is compared with nil confuses "bound to nothing" with "unbound" and
+	// lets a second occurrence of the name bind a different subtree.
+	c.Rule("R9.6", func() {
+		c.Floor("R9.6", 1)
+		n := 0
+		for _, fn := range c.ModuleFuncs() {
+			if FuncPkgPath(fn) != patternPkg {
+				continue
+			}
+			Instrs(fn, false, func(in ssa.Instruction) {
+				lk, ok := in.(*ssa.Lookup)
+				if !ok || !DerivesLocal(lk.X, IsFieldOf("Matcher", "State")) {
+					return
+				}
+				if _, isMap := lk.X.Type().Underlying().(*types.Map); !isMap {
+					return
+				}
+				n++
+				c.SawFunc(fn.String())
+				// what decides on presence: the ok of a comma-ok lookup is fine; a nil test of the value is not
+				bad := ""
+				var val ssa.Value = lk
+				if lk.CommaOk {
+					val = nil
+					for _, r := range *lk.Referrers() {
+						if e, ok := r.(*ssa.Extract); ok && e.Index == 0 {
+							val = e
+						}
+					}
+				}
+				if val != nil {
+					for x := range ForwardFlow(val) {
+						if bo, ok := x.(*ssa.BinOp); ok && (bo.Op == token.EQL || bo.Op == token.NEQ) && (IsNilConst(bo.X) || IsNilConst(bo.Y)) {
+							other := bo.X
+							if IsNilConst(bo.X) {
+								other = bo.Y
+							}
+							if DerivesLocal(other, func(v ssa.Value) bool { return v == val }) {
+								bad = "the looked-up value is compared with nil at " + c.PosStr(bo.Pos())
+							}
+						}
+					}
+				}
+				c.Check(FuncKey(fn)+"::State-presence-by-comma-ok#"+itoa(n-1), lk.Pos(), bad == "", "whether a name is bound must be decided by presence in Matcher.State (the ok of a comma-ok lookup): nil is a legitimate bound value (an absent child); %s", bad)
+			})
+		}
+		if n < 1 {
+			c.Undecided("found only %d lookups in Matcher.State", n)
+		}
 	})
 }
 
